@@ -27,6 +27,7 @@ import (
 	"path/filepath"
 	"sort"
 	"strings"
+	"time"
 )
 
 type exception struct {
@@ -99,7 +100,12 @@ func main() {
 		fmt.Fprintln(os.Stderr, err)
 		os.Exit(2)
 	}
-	if err := l.loadAll(map[string]bool{"testutils": true, "zzverif": true}); err != nil {
+	tl := time.Now()
+	err = l.loadAll(map[string]bool{"testutils": true, "zzverif": true})
+	if *verbose {
+		fmt.Fprintf(os.Stderr, "load %v, %d packages, %d type errors\n", time.Since(tl), len(l.pkgs), len(l.errs))
+	}
+	if err != nil {
 		fmt.Fprintln(os.Stderr, "load:", err)
 		os.Exit(2)
 	}
@@ -110,8 +116,12 @@ func main() {
 			a.configMeth[e.Name] = e.Reason
 		}
 	}
+	t0 := time.Now()
 	a.index()
 	a.run()
+	if *verbose {
+		fmt.Fprintf(os.Stderr, "analysis %v, %d contexts\n", time.Since(t0), len(a.memo))
+	}
 
 	out := &output{Entries: a.entries, TypeErrors: l.errs, FreshSkipped: a.nFresh}
 	for i := range excs {
